@@ -1563,6 +1563,7 @@ static void vf_fini(void) { fam_max_flush(); }
 static void vf_case(uint64_t cno, vf_rng *r)
 {
     plan_t const pl = plan[cno];
+    if (cno == 0) { bfuzz_macro_hygiene(""); }
     if (cno % 8 == 3) { mf_extreme(r, "", 64); if (vf.case_viol) { return; } }
     switch (pl.kind)
     {
